@@ -6,6 +6,11 @@ current source of the repository (harness/effects_translate.py), `safe` of coq/M
 is evaluated on it by vm_compute, and `C09_safe_sound` (coq/Properties/C09.v) gives the
 guarantee for every accepted entry point.
 
+Static part, sub-claim (b) (round 3): the structured attribute-state IR of every method of every public
+class is regenerated as well, `refit_enc` of coq/Model/Refit.v is evaluated on it by vm_compute and
+cross-checked against `py_refit`; C09_refit_fresh / C09_refit_observably_fresh give the guarantee for the
+accepted classes; alarms are matched against the reasoned baseline REFIT_ACCEPTED, any other alarm is reported.
+
 Dynamic part (harness/c09_dynamic.py): byte-wise snapshots of every argument on C-ordered,
 F-ordered, read-only and non-contiguous inputs, hyper-parameters before/after fit, two-step fit
 histories against a fresh estimator, same-seed repeatability, fit-returns-self and
@@ -106,7 +111,10 @@ def static_part(ctx):
     for sh, g in zip(shards, groups):
         ev = " ++ ".join("unit_enc roots_%d bodies_%d" % (i, i) for i in g)
         texts.append(head + "\n".join(sh) + "\nEval vm_compute in (%s).\n" % ev)
-    outs = C.run_shards(ctx.prop, texts)
+    rtexts, cls_units = refit_texts(units)
+    outs_all = C.run_shards(ctx.prop, texts + rtexts)
+    outs, routs = outs_all[:len(texts)], outs_all[len(texts):]
+    refit = refit_verdicts(ctx, cls_units, routs)
     entries = []          # dict(unit, entry, safe, closed, sites, py_sites)
     broken = []
     for g, (rc, out) in zip(groups, outs):
@@ -128,7 +136,7 @@ def static_part(ctx):
                 entries.append(dict(unit=u, k=k, name="%s.%s" % (u.name, name) if u.is_class else u.name, safe=bool(safe), closed=bool(closed), sites=sites,
                                     py_sites=py_bad, closure=closure, nstmts=len(body),
                                     nwrites=sum(1 for s in body if s[0] in ("Write", "SetParam"))))
-    return units, entries, broken, sum(len(t) for t in texts)
+    return units, entries, broken, sum(len(t) for t in texts), refit, sum(len(t) for t in rtexts)
 
 
 def describe_sites(e):
@@ -146,10 +154,229 @@ def describe_sites(e):
     return out
 
 
+# ------------------------------------------------------------------ static part, sub-claim (b): refits
+# Alarms of the refit analyser on the UNCHANGED tree that are accepted, with the reason.  An entry accepts
+# (class regex, alarm kinds, attribute-key regex); everything else the analyser reports is a violation.
+# kinds: fit = the cold fit may read the attribute before determining it; method = another method may read an
+# attribute the cold fit left undetermined; missing = the cold fit leaves the attribute undetermined on some path.
+REFIT_ACCEPTED = [
+    (r".*_selection\.\w+$", "fit method missing", r"self\.report_progress_$",
+     "assigned under `progress_bar is True / is False`; with any other (undocumented) value of the hyper-parameter a "
+     "fresh estimator raises AttributeError while a refit reuses the earlier wrapper; reported to the lead as a "
+     "candidate finding, hyper-parameter documented as bool"),
+    (r"sample_selection\.VoronoiFPS$", "fit method missing", r"self\.full_fraction$",
+     "known finding F9: fit stores the calibrated switching point back into the hyper-parameter and reads it first"),
+    (r".*_selection\.\w+$", "missing", r"self\.feature_names_in_$",
+     "GreedySelector.fit validates with _validate_data only when y is given (else check_array): a feature_names_in_ "
+     "set by an earlier fit on a DataFrame is not reset; unobservable here (no pandas), X documented as ndarray"),
+    (r"sample_selection\.VoronoiFPS$", "missing", r"self\.new_dist_$",
+     "work array assigned inside the selection loop (no iteration = not assigned); only read right after being assigned"),
+    (r"decomposition\.(Kernel)?PCovR$", "missing", r"self\.regressor_$|.*(clone|deepcopy)\.X_fit_$",
+     "assigned unless regressor == 'precomputed' (hyper-parameter condition); not consulted by any other method"),
+    (r"decomposition\.KernelPCovR$", "missing method", r"self\.centerer_$|o@skmatter\.decomposition\._kernel_pcovr\.[\w<> ]+$",
+     "centerer_ and the KernelNormalizer it holds exist only when center=True; transform/predict/score consult them "
+     "under the same hyper-parameter test `if self.center` -- correlated branches, which the path-insensitive "
+     "analysis cannot see (audit: open)"),
+    (r"decomposition\.KernelPCovR$", "missing method", r"self\.ptx_$",
+     "assigned when fit_inverse_transform=True; inverse_transform reads it (and raises AttributeError otherwise)"),
+    (r"linear_model\.OrthogonalRegression$", "missing method", r"self\.max_components_$",
+     "assigned and read under the same hyper-parameter test `not self.use_orthogonal_projector` (correlated branches)"),
+]
+
+
+def _norm_key(key):
+    """allocation-site identities carry line:column; strip them so that unrelated edits do not rename keys"""
+    import re
+    return re.sub(r":\d+:\d+", "", key)
+
+
+def refit_accepted(cls, kind, key):
+    import re
+    for cre, kinds, kre, why in REFIT_ACCEPTED:
+        if kind in kinds.split() and re.match(cre, cls) and re.match(kre, _norm_key(key)):
+            return why
+    return None
+
+
+def py_da(L, D, blk):
+    """reference implementation of Refit.da on a numbered block -> ({exit: set|None}, [sites])"""
+    def meet(a, b):
+        return b if a is None else a if b is None else a & b
+    ex = {"n": set(D), "r": None, "e": None, "b": None, "c": None}
+    bad = []
+    for n in blk:
+        if ex["n"] is None:
+            break
+        D = ex["n"]
+        k = n[0]
+        x = {"n": None, "r": None, "e": None, "b": None, "c": None}
+        if k == "Read":
+            x["n"] = set(D)
+            if not (n[1] in D or n[1] not in L):
+                bad.append(n[2])
+        elif k in ("Assign", "Reset"):
+            x["n"] = D | {n[1]}
+        elif k == "Del":
+            x["n"], x["e"] = D | {n[1]}, set(D)
+            if not (n[1] in D or n[1] not in L):
+                bad.append(n[2])
+        elif k == "If":
+            x1, b1 = py_da(L, D, n[2])
+            x2, b2 = py_da(L, D, n[3])
+            bad += b1 + b2
+            x = {q: meet(x1[q], x2[q]) for q in x}
+        elif k == "While":
+            x1, b1 = py_da(L, D, n[2])
+            bad += b1
+            x = {"n": meet(set(D), x1["b"]), "r": x1["r"], "e": x1["e"], "b": None, "c": None}
+        elif k == "Call":
+            x1, b1 = py_da(L, D, n[1])
+            bad += b1
+            x = {"n": meet(x1["n"], x1["r"]), "r": None, "e": x1["e"], "b": x1["b"], "c": x1["c"]}
+        elif k == "Try":
+            x1, b1 = py_da(L, D, n[2])
+            bad += b1
+            if x1["e"] is None:
+                x = x1
+            else:
+                x2, b2 = py_da(L, x1["e"], n[3])
+                bad += b2
+                x = {q: meet(x1[q], x2[q]) for q in x}
+                x["e"] = meet(set(x1["e"]), x2["e"])
+        elif k == "Return":
+            x["r"] = set(D)
+        elif k == "Raise":
+            x["e"] = set(D)
+        elif k == "Break":
+            x["b"] = set(D)
+        elif k == "Continue":
+            x["c"] = set(D)
+        ex = {"n": x["n"], "r": meet(ex["r"], x["r"]), "e": meet(ex["e"], x["e"]),
+              "b": meet(ex["b"], x["b"]), "c": meet(ex["c"], x["c"])}
+    return ex, bad
+
+
+def _writes(blk, out):
+    for n in blk:
+        if n[0] in ("Assign", "Del", "Reset"):
+            out.add(n[1])
+        elif n[0] in ("If", "Try"):
+            _writes(n[2], out)
+            _writes(n[3], out)
+        elif n[0] == "While":
+            _writes(n[2], out)
+        elif n[0] == "Call":
+            _writes(n[1], out)
+    return out
+
+
+def _count_nodes(blk):
+    c = 0
+    for n in blk:
+        c += 1
+        for part in n[1:]:
+            if isinstance(part, list):
+                c += _count_nodes(part)
+    return c
+
+
+def py_refit(ms):
+    """reference verdict for one class: dict(fresh, observable, sites, missing, per=[sites per method])"""
+    L = set()
+    for _, b in ms:
+        _writes(b, L)
+    x, bad = py_da(L, set(), ms[0][1])
+    fin = x["n"] if x["r"] is None else x["r"] if x["n"] is None else x["n"] & x["r"]
+    missing = sorted(L - fin) if fin is not None else []
+    per = [py_da(L, fin, b)[1] if fin is not None else [] for _, b in ms]
+    return dict(fresh=not bad and not missing, observable=not bad and not any(per), sites=bad, missing=missing, per=per,
+                learned=len(L))
+
+
+def refit_texts(units):
+    """-> (shard texts, [unit] in evaluation order)"""
+    head = C.SHARD_HEAD + "From Coq Require Import List PArith.\nImport ListNotations.\nFrom Verif Require Import Effects Refit.\n" + E.REFIT_HEAD
+    cls_units = [u for u in units if getattr(u, "is_class", False) and u.refit.s_methods]
+    if not cls_units:
+        return [], []
+    body = "\n".join(E.refit_coq(u.refit, i) for i, u in enumerate(cls_units))
+    ev = " ++ ".join("refit_enc rcls_%d" % i for i in range(len(cls_units)))
+    return [head + body + "\nEval vm_compute in (%s).\n" % ev], cls_units
+
+
+def refit_verdicts(ctx, cls_units, outs):
+    """parse the Coq output, cross-check with the reference evaluation -> [dict per class]"""
+    res = []
+    flat = None
+    if outs:
+        rc, out = outs[0]
+        lists = C.parse_nat_lists(out)
+        if rc == 0 and len(lists) == 1:
+            flat = lists[0]
+        else:
+            C.report_violation(ctx, "C09 refit case file did not evaluate", dict(coq_output=out[-1500:]), found_input=False)
+    pos = 0
+    for u in cls_units:
+        su = u.refit
+        ms = E.s_numbered(su)
+        ref = py_refit(ms)
+        names = {v: k for k, v in su.s_keys.items()}
+        coq = None
+        if flat is not None:
+            try:
+                fresh, obs, n = flat[pos], flat[pos + 1], flat[pos + 2]
+                sites = [x - 1 for x in flat[pos + 3: pos + 3 + n]]
+                pos += 3 + n
+                nm = flat[pos]
+                missing = flat[pos + 1: pos + 1 + nm]
+                pos += 1 + nm
+                nmeth = flat[pos]
+                pos += 1
+                per = []
+                for _ in range(nmeth):
+                    k = flat[pos]
+                    per.append([x - 1 for x in flat[pos + 1: pos + 1 + k]])
+                    pos += 1 + k
+                coq = dict(fresh=bool(fresh), observable=bool(obs), sites=sites, missing=sorted(missing), per=per)
+            except IndexError:
+                C.report_violation(ctx, "C09 refit verdict list truncated", dict(cls=u.name), found_input=False)
+                flat = None
+        if coq is not None and any(coq[k] != ref[k] for k in coq):
+            C.report_violation(ctx, "C09 refit analyser output for %s does not match the reference evaluation" % u.name,
+                               dict(cls=u.name, coq={k: coq[k] for k in coq}, reference={k: ref[k] for k in coq}),
+                               found_input=False)
+        v = coq if coq is not None else ref
+
+        def sites_desc(lst):
+            out, seen = [], set()
+            for s_ in lst:
+                st = su.sites[s_]
+                key = (st["file"], st["line"], st["reason"])
+                if key not in seen:
+                    seen.add(key)
+                    out.append(dict(file=st["file"], line=st["line"], text=st["text"], reason=st["reason"], via=st["via"][-3:]))
+            return out
+
+        def site_key(s_):
+            return su.sites[s_].get("key") or su.sites[s_]["reason"]
+        alarms = []      # (kind, key, description)
+        for s_ in v["sites"]:
+            alarms.append(("fit", site_key(s_), sites_desc([s_])[0]))
+        for (mname, _), lst in zip(ms, v["per"]):
+            for s_ in lst:
+                alarms.append(("method", site_key(s_), dict(sites_desc([s_])[0], method=mname)))
+        for a in v["missing"]:
+            alarms.append(("missing", names.get(a, "?%d" % a), None))
+        res.append(dict(cls=u.name, fresh=v["fresh"], observable=v["observable"], learned=ref["learned"],
+                        methods=[m for m, _ in ms], nodes=sum(_count_nodes(b) for _, b in ms), alarms=alarms,
+                        failclosed=list(su.s_failclosed), coq=coq is not None))
+    return res
+
+
 # ------------------------------------------------------------------ run
 def run(ctx):
     po = C.proof_obligations(ctx.prop)
-    units, entries, broken, ir_bytes = static_part(ctx)
+    units, entries, broken, ir_bytes, refit, refit_bytes = static_part(ctx)
     dyn = D.run_dynamic(ctx)
 
     # ---- (a) purity: static verdicts x dynamic observations
@@ -210,6 +437,35 @@ def run(ctx):
         C.report_violation(ctx, v["what"], dict(case=v["case"], detail=v.get("detail"),
                                                 static_stale_state_reads_in_fit=stale), key=v.get("key"),
                            found_input=True)
+    # ---- (b) static: verdicts of the refit analyser (C09_refit_fresh / C09_refit_observably_fresh)
+    dyn_refit_classes = {v["case"].get("scenario") for v in dyn["violations"] if v["case"].get("kind") == "history"}
+    refit_accepted_log, n_refit_new = [], 0
+    for r in refit:
+        for fc in r["failclosed"][:1]:
+            C.report_violation(ctx, "C09 refit IR of %s needed a fail-closed fallback (%s): no static refit verdict" % (r["cls"], fc),
+                               dict(cls=r["cls"], fallbacks=r["failclosed"]), key="%s:refit fail-closed" % r["cls"], found_input=False)
+        seen, unaccepted = set(), {}
+        for kind, key, desc in r["alarms"]:          # in the order fit, method, missing
+            why = refit_accepted(r["cls"], kind, key)
+            if (kind, _norm_key(key)) in seen:
+                continue
+            seen.add((kind, _norm_key(key)))
+            if why is not None:
+                refit_accepted_log.append(dict(cls=r["cls"], kind=kind, attribute=_norm_key(key), reason=why))
+            else:
+                unaccepted.setdefault(_norm_key(key), (kind, key, desc))     # one report per attribute
+        for kind, key, desc in unaccepted.values():
+            n_refit_new += 1
+            what = {"fit": "the cold fit may read %s before (re)assigning it: state of an earlier fit can leak into a refit",
+                    "method": "%s may be left over from an earlier fit (the cold fit does not determine it on every path) and "
+                              "another method reads it",
+                    "missing": "the cold fit leaves %s undetermined on some path: it can be left over from an earlier fit"}[kind] % key
+            C.report_violation(
+                ctx, "C09 refit analyser rejects %s: %s%s%s" % (
+                    r["cls"], what, " -- %s:%s `%s`" % (desc["file"], desc["line"], desc["text"]) if desc else "",
+                    " (confirmed by a failing history, see the C09 refit reports)" if r["cls"] in dyn_refit_classes else ""),
+                dict(cls=r["cls"], kind=kind, attribute=key, site=desc), key="%s:refit-static %s %s" % (r["cls"], kind, _norm_key(key)),
+                found_input=False)
     for txt in broken:
         C.report_violation(ctx, "C09 case file did not evaluate", dict(coq_output=txt), found_input=False)
     if not po["ok"]:
@@ -245,6 +501,14 @@ def run(ctx):
             static_entries_exercised_dynamically=len(st_entries & dyn_entries),
             static_entries_not_exercised=sorted(st_entries - dyn_entries),
             fail_closed_callees=unknown, stale_state_reads_in_fit=stale,
+            refit_static=dict(
+                classes=len(refit), ir_bytes=refit_bytes, ir_nodes=sum(r["nodes"] for r in refit),
+                methods=sum(len(r["methods"]) for r in refit), learned_attributes=sum(r["learned"] for r in refit),
+                exactly_fresh=sorted(r["cls"] for r in refit if r["fresh"]),
+                observably_fresh=sorted(r["cls"] for r in refit if r["observable"] and not r["fresh"]),
+                accepted_with_baseline=sorted(r["cls"] for r in refit if not r["observable"]),
+                evaluated_in_coq=sum(1 for r in refit if r["coq"]), new_alarms=n_refit_new,
+                accepted_alarms=refit_accepted_log),
             dynamic=dyn["stats"]),
         anchor_drift=changed)
     return C.finish(ctx, "proof", cov, [
@@ -252,8 +516,11 @@ def run(ctx):
         "harness/effects_translate.py) is trusted and cross-validated dynamically, not proved",
         "copy=False / in-place modes, user-supplied callables and estimator collaborators, and random_state objects "
         "are outside the property",
-        "refit/determinism/fit_transform sub-claims are checked dynamically on generated histories (sampling), "
-        "plus the static definite-assignment diagnostic reported as stale_state_reads_in_fit"])
+        "refit sub-claim: C09_refit_fresh / C09_refit_observably_fresh applied to the structured attribute-state IR "
+        "regenerated for every class (translator trusted; branch conditions are opaque, so assignments and reads guarded "
+        "by the same hyper-parameter test are reported and accepted through the documented baseline REFIT_ACCEPTED); "
+        "cross-validated by the dynamic fit histories",
+        "determinism / fit_transform sub-claims are checked dynamically on generated histories (sampling)"])
 
 
 def replay(ctx, obj):
